@@ -733,11 +733,43 @@ def GmdStatement : Prop :=
     that every index read is in range (`Inv.bounds`), and at `k = p − 1` gives the five
     conclusions (`Inv.final`).  The array / `Except` model refines the abstract step
     (`gmdStep_refines`, `sweep_ok`, `finish_ok`).
-    Complex matrices: NOT covered by this theorem (the model is the same text instantiated at a
-    complex scalar; that case rests on the correspondence and the per-case contract oracle). -/
+    Complex matrices: `gmd_correct_complex`. -/
 theorem gmd_correct : GmdStatement :=
   fun m n U V S sb hp hU hV hS hmono hsb hprod =>
-    GmdInv.gmd_sound m n U V S sb hp hU hV hS hmono hsb hprod
+    GmdInv.gmd_sound GmdInv.realLike_real m n U V S sb hp hU hV hS hmono hsb hprod
+
+/-- FULL STATEMENT of the geometric-mean-decomposition clause for COMPLEX matrices: the same
+    executable model `gmd`, instantiated at `ℂ` exactly as the compiled driver instantiates it at
+    its binary64 complex type (`RSqrt ℂ` = real square root of the real part, `≤` = comparison of
+    the real parts, `GmdInv.leRe`; the singular values and `σ̄` enter as real numbers embedded in
+    `ℂ`, as in the code, whose `d`, `z`, `R` are real arrays).  For every full SVD `A = U Σ Vᴴ` with
+    unitary `U`, `V`, positive non-increasing singular values and `σ̄` their geometric mean the
+    sweep raises nothing and returns `Q, R, P` with `Q R Pᴴ = U Σ Vᴴ`, `Qᴴ Q = 1`, `Pᴴ P = 1`,
+    upper-triangular `R` with constant diagonal `σ̄`.  PROVED: `gmd_correct_complex`. -/
+def GmdStatementComplex : Prop :=
+  ∀ (m n : Nat) (U : Mat ℂ m m) (V : Mat ℂ n n) (S : Fin (min m n) → ℝ) (sb : ℝ),
+    0 < min m n → matMul (cT U) U = eye → matMul (cT V) V = eye →
+    (∀ i, 0 < S i) → (∀ i j, i ≤ j → S j ≤ S i) → 0 < sb → sb ^ (min m n) = ∏ i, S i →
+    ∃ Q R P mg, @gmd ℂ _ _ _ _ _ _ _ _ GmdInv.leRe GmdInv.decLeRe m n (min m n) (sb : ℂ) (colsOf U)
+        (Array.ofFn (fun i => ((S i : ℝ) : ℂ))) (colsOf V) = .ok (Q, R, P, mg) ∧
+      (let Qm : Mat ℂ m m := fun i j => entryCols Q i.val j.val
+       let Rm : Mat ℂ m n := fun i j => entryRows R i.val j.val
+       let Pm : Mat ℂ n n := fun i j => entryCols P i.val j.val
+       matMul (matMul Qm Rm) (cT Pm) = matMul (matMul U (sigmaMat (fun i => ((S i : ℝ) : ℂ)))) (cT V) ∧
+       matMul (cT Qm) Qm = eye ∧ matMul (cT Pm) Pm = eye ∧
+       (∀ i j, j.val < i.val → Rm i j = 0) ∧
+       (∀ i j, i.val = j.val → i.val < min m n → Rm i j = (sb : ℂ)))
+
+/-- THE GEOMETRIC MEAN DECOMPOSITION IS CORRECT FOR COMPLEX MATRICES.  The proof of
+    `gmd_correct` is carried out once, for every field `K` with conjugation that contains the
+    reals such that conjugation, `sqrt` and `≤` restricted to the reals are the real ones
+    (`GmdInv.RealLike`); `ℝ` and `ℂ` are the two instances (`realLike_real`, `realLike_complex`).
+    Orthonormality is with respect to the Hermitian inner product; the rotations `G1`, `G2` are
+    real, so they commute with conjugation (`Orth.rot`). -/
+theorem gmd_correct_complex : GmdStatementComplex :=
+  fun m n U V S sb hp hU hV hS hmono hsb hprod =>
+    @GmdInv.gmd_sound ℂ _ _ _ GmdInv.leRe GmdInv.decLeRe Complex.ofRealHom GmdInv.realLike_complex
+      m n U V S sb hp hU hV hS hmono hsb hprod
 
 /-- the existence of a straddling partner, stated on its own: if the pivot `d[k] ≥ σ̄` and
     `d[k] · ∏ S[lo..hi) = σ̄^(hi−lo+1)` with positive `S`, the smallest remaining value `S sm` is
@@ -803,6 +835,13 @@ example : ∃ (U V : Mat ℝ 2 2) (S : Fin (min 2 2) → ℝ) (sb : ℝ),
     0 < min 2 2 ∧ matMul (cT U) U = eye ∧ matMul (cT V) V = eye ∧ (∀ i, 0 < S i) ∧
     (∀ i j, i ≤ j → S j ≤ S i) ∧ 0 < sb ∧ sb ^ (min 2 2) = ∏ i, S i :=
   ⟨eye, eye, GmdInv.exS, 2, GmdInv.ex_hyps⟩
+
+/-- non-vacuity of `GmdStatementComplex`: `U = V = i·1` (unitary, not real), `S = (4, 1)`, `σ̄ = 2` -/
+example : ∃ (U V : Mat ℂ 2 2) (S : Fin (min 2 2) → ℝ) (sb : ℝ),
+    0 < min 2 2 ∧ matMul (cT U) U = eye ∧ matMul (cT V) V = eye ∧ (∀ i, 0 < S i) ∧
+    (∀ i j, i ≤ j → S j ≤ S i) ∧ 0 < sb ∧ sb ^ (min 2 2) = ∏ i, S i :=
+  ⟨GmdInv.exU, GmdInv.exU, GmdInv.exS, 2, GmdInv.ex_hyps.1, GmdInv.exU_unitary, GmdInv.exU_unitary,
+    GmdInv.ex_hyps.2.2.2⟩
 
 end gmd
 
